@@ -125,6 +125,6 @@ SUBS = [
 
 MANIFEST = {
     "technique": "property-based round-trip testing: Hypothesis model generator for the UVL fragment, n write/read cycles, oracle = generating spec (names, tree, flags, types, cardinalities, type-strict attribute values, one-to-one truth-table equivalence of constraints with structural comparison atoms) plus byte/observation idempotence",
-    "level_text": "Generated UVL-fragment models (keyword/operator-word/odd/non-ASCII names, typed features, cardinalities, nested attribute values, logical/arithmetic/aggregate constraints) are written and read 3-5 times; cycle 1 is compared with the spec, later cycles with the previous one. Sampling only.",
+    "level_text": "Generated UVL-fragment models (keyword/operator-word/odd/non-ASCII names, typed features, cardinalities, nested attribute values, logical/arithmetic/aggregate constraints) are written and read 3-5 times; cycle 1 is compared with the spec, later cycles with the previous one. Sampling only. Also: models of 80-140 features with up to 120 constraints, wide groups (10-24 members, multi-digit bounds), constraint trees with shared Node objects, long declaration lines, and - at the same path, before the first cycle - a decoy model, a failing call and a type-confused twin; a quarter of the cases write to a bare relative path, a third to another file system. A sample of every sub-check additionally runs in a `python -OO` child with the root logger at DEBUG.",
     "level_note": "Trusted: vf/build.py, vf/roundtrip.py, vf/logic.py, Hypothesis; the UVL lexical facts in DESIGN Appendix A for the generators.",
 }
